@@ -203,7 +203,7 @@ def jobs(tier, seed):
             js.append(Job("equiv/p%d/%s" % (p, mix), "harness.c19:equivalence", p=p, mix=mix))
         for op1 in ("none", "scale", "to_affine", "xy", "double", "add", "eq", "neg", "mul2_table", "state"):
             for op2 in ("xy", "eq_fresh", "add", "mul3"):
-                if tier == "quick" and op2 == "mul3" and op1 not in ("none", "scale", "mul2_table", "state"):
+                if tier == "quick" and op2 in ("mul3", "add") and op1 not in ("scale", "mul2_table", "state"):
                     continue
                 js.append(Job("step/p%d/%s/%s" % (p, op1, op2), "harness.c19:step", p=p, op1=op1, op2=op2))
     return js
